@@ -204,6 +204,19 @@ func tokenOptions(o *CoreOptions, r *rand.Rand) {
 	o.TightTmo = 30
 }
 
+// genesisRestartTokens turns a third of the token worlds into worlds whose chains are restarted
+// through genesis export/import and keep running afterwards: no IBC v2 clients (their import is
+// refused, C44 known finding) and no v2-over-alias traffic (its state is dropped, C44 known
+// findings), so that everything the ICS-20 model relies on must survive the restart.
+func genesisRestartTokens(o *CoreOptions, r *rand.Rand) {
+	if r.Intn(3) != 0 {
+		return
+	}
+	o.Kinds = []string{"none"}
+	o.NoAlias = true
+	o.WGenesis = 4
+}
+
 func init() {
 	coreCheck("C01",
 		"worlds of 2 real chains with mock apps on v1 unordered/ordered channels, v2 clients, v2-over-alias and localhost loopback; seeded relayers duplicate, replay, reorder and race every relay message with proofs at any height the run produced. Oracle: committed receive callbacks per (destination id, sequence) <= 1; a block made only of receives of already-received packets has an empty store diff. Non-trivial case = distinct (route kind, message kind, outcome, lifecycle state) of a committed redundant relay",
@@ -367,7 +380,9 @@ func init() {
 		func(o *CoreOptions, r *rand.Rand, tier string) {
 			o.Kinds = subset(r, []string{"v1u", "v1o"})
 			type dm struct{ d, m uint64 }
-			sets := []dm{{10e9, 30e9}, {35e9, 7e9}, {61e9, 30e9}, {45e9, 45e9}, {1<<53 + 1, 1 << 53}}
+			sets := []dm{{10e9, 30e9}, {35e9, 7e9}, {61e9, 30e9}, {45e9, 45e9}, {1<<53 + 1, 1 << 53},
+				// delays near 2^64 ns: processed time + delay and processed height + block delay do not fit 64 bits
+				{1<<64 - 1, 1 << 63}, {1<<64 - 1, 1}, {1<<64 - 25e9, 30e9}}
 			s := sets[r.Intn(len(sets))]
 			o.Delay, o.MEPT = s.d, s.m
 			o.WDelayProbe = 30
@@ -411,7 +426,11 @@ func init() {
 	coreCheck("C31",
 		"same token worlds plus direct donations to escrow accounts; after every block the queried total-escrow-for-denom equals the model's ledger of IBC escrows minus releases (refunds, unwinding receives) per denomination, is never negative and never exceeds the combined balance of the transfer escrow accounts. Non-trivial case = distinct escrow/release/donation shapes",
 		[]string{"xfer:", "return:", "refund:", "donate:"}, 96, 1400,
-		func(o *CoreOptions, r *rand.Rand, tier string) { tokenOptions(o, r); o.WDonate = 8 },
+		func(o *CoreOptions, r *rand.Rand, tier string) {
+			tokenOptions(o, r)
+			o.WDonate = 8
+			genesisRestartTokens(o, r)
+		},
 		func(ck *sim.Check) {
 			tokAssume(ck)
 			ck.RequiredProbes = []string{"donation_to_escrow_account", "transfer_unwound", "transfer_refunded_tmo"}
@@ -427,7 +446,12 @@ func init() {
 	coreCheck("C33",
 		"token worlds biased to round trips: every voucher a user holds tends to be sent back over the channel it came from (also after onward hops), for native denominations drawn from the '/'-segment grammar. Oracle: a returning voucher must be accepted (valid receiver) and the origin must release exactly the original native denomination from that channel's escrow to the receiver (bank diff vs model); after the drain no return is stuck. Non-trivial case = distinct (route kind, released denomination shape)",
 		[]string{"return:"}, 96, 1400,
-		func(o *CoreOptions, r *rand.Rand, tier string) { tokenOptions(o, r); o.TightTmo = 10; o.WEarlyTmo = 2 },
+		func(o *CoreOptions, r *rand.Rand, tier string) {
+			tokenOptions(o, r)
+			o.TightTmo = 10
+			o.WEarlyTmo = 2
+			genesisRestartTokens(o, r)
+		},
 		func(ck *sim.Check) {
 			tokAssume(ck)
 			ck.RequiredProbes = []string{"transfer_unwound"}
